@@ -288,6 +288,21 @@ func (x *Exec) native(name string, fn *ssa.Function, args []Value) (Value, bool)
 		return x.indexSeq(args[0].(*Str).b, args[1].(*Str).b), true
 	case "bytes.Index":
 		return x.indexSeq(x.sliceBytes(args[0].(SliceV)), x.sliceBytes(args[1].(SliceV))), true
+	case "(*regexp.Regexp).FindStringSubmatch":
+		re, isRe := args[0].(Ptr).o.(*Cell).v.(Native).v.(*regexp.Regexp)
+		conc, ok := args[1].(*Str).concrete()
+		if !isRe || !ok {
+			panic(abortPath{"FindStringSubmatch on symbolic text", false})
+		}
+		m := re.FindStringSubmatch(conc)
+		if m == nil {
+			return SliceV{}, true
+		}
+		a := &ArrayObj{e: make([]Obj, len(m))}
+		for i := range m {
+			a.e[i] = &Cell{v: strOf(m[i])}
+		}
+		return SliceV{a: a, len: len(m), cap: len(m)}, true
 	case "(*regexp.Regexp).MatchString":
 		re := args[0].(Ptr).o.(*Cell).v.(Native).v.(*regexp.Regexp)
 		return Bool(re.MatchString(mustStr(args[1]))), true
@@ -305,18 +320,6 @@ func (x *Exec) native(name string, fn *ssa.Function, args []Value) (Value, bool)
 			store(s.a.e[s.off+i], strOf(vals[i]))
 		}
 		return nil, true
-	case "os/exec.Command", "os/exec.CommandContext":
-		x.events = append(x.events, "command")
-		rt := fn.Signature.Results().At(0).Type().(*types.Pointer).Elem()
-		return Ptr{o: newObj(rt)}, true
-	case "(*os/exec.Cmd).Start":
-		x.events = append(x.events, "start")
-		return Iface{}, true
-	case "(*os/exec.Cmd).Wait":
-		x.events = append(x.events, "wait")
-		return Iface{}, true
-	case "(*os/exec.Cmd).StdinPipe", "(*os/exec.Cmd).StdoutPipe":
-		return Tuple{opaqueIface, Iface{}}, true
 	case "reflect.TypeOf":
 		return opaqueIface, true
 	case "math/rand.NewSource":
